@@ -28,6 +28,19 @@
 
 #include "assert.h"
 
+#if defined(CPP_TBOX_VERIF) && defined(__SANITIZE_ADDRESS__)
+//! Verification hook: blocks parked in the free list are poisoned (except the
+//! link word), so that touching a freed pooled object is reported by ASan.
+# include <sanitizer/asan_interface.h>
+# define TBOX_OBJECT_POOL_POISON(block) \
+    ASAN_POISON_MEMORY_REGION(reinterpret_cast<char*>(block) + sizeof(void*), sizeof(*(block)) - sizeof(void*))
+# define TBOX_OBJECT_POOL_UNPOISON(block) \
+    ASAN_UNPOISON_MEMORY_REGION(reinterpret_cast<char*>(block), sizeof(*(block)))
+#else
+# define TBOX_OBJECT_POOL_POISON(block) (void)0
+# define TBOX_OBJECT_POOL_UNPOISON(block) (void)0
+#endif
+
 namespace tbox {
 
 /**
@@ -83,6 +96,7 @@ class ObjectPool {
         //! 释放掉所有的空闲块
         while (free_header_ != nullptr) {
             auto next = free_header_->next;
+            TBOX_OBJECT_POOL_UNPOISON(free_header_);
             ::free(free_header_);
             free_header_ = next;
         }
@@ -105,6 +119,7 @@ class ObjectPool {
             //! 直接从空闲块链表取出一块
             free_header_ = block->next;
             --free_number_;
+            TBOX_OBJECT_POOL_UNPOISON(block);
         }
 
         TBOX_ASSERT(block != nullptr);
@@ -133,6 +148,7 @@ class ObjectPool {
             block->next = free_header_;
             free_header_ = block;
             ++free_number_;
+            TBOX_OBJECT_POOL_POISON(block);
 
             if (free_number_ > stat_.peak_free_number)
                 stat_.peak_free_number = free_number_;
